@@ -707,6 +707,20 @@ ElemNumber::getPreviousNode(
 
             pos = next;
 
+            // A node that matches the 'from' pattern ends the walk, wherever
+            // it is: only nodes after it are counted.
+            if(0 != pos &&
+               0 != fromMatchPattern &&
+               fromMatchPattern->getMatchScore(
+                        pos,
+                        *this,
+                        executionContext) != XPath::eMatchScoreNone)
+            {
+                pos = 0; // return 0 from function.
+
+                break; // from while loop
+            }
+
             if(0 != pos &&
                (0 == countMatchPattern ||
                 countMatchPattern->getMatchScore(
